@@ -112,6 +112,16 @@ def explicit(tier, seed):  # noqa: C901
                                faults=[{"match": {"op": "checkpoint", "n": k}, "err": err, "when": when, "delay_ms": 30 if (sname in ("par", "seq") and (k + len(when)) % 2) else 0}],
                                opts={"hang_s": 3.0, **({"perturb": {"p": 0.0, "seed": i, "files": ["threading.py", "state.py", "executor.py"],
                                                                    "after_sync": {"p": 0.8, "sleep": 0.003}}} if (k + len(sname)) % 3 == 0 else {})}, **extra)
+    # an HTTP-200 checkpoint answer the SDK cannot interpret (enum value of a newer service, missing member): a failed call like any other
+    for sname, body in shapes.items():
+        ncalls = {"seq": 5, "child": 4, "big": 2, "child-raises": 5, "nested-child-raises": 5, "par": 6, "big-step": 3}[sname]
+        extra = {"prog_extra": {"ret": {"big": 6 * 1024 * 1024 + 5}}} if sname == "big" else {}
+        for k in range(1, ncalls + 1):
+            how = ["subtype", "status", "type", "no-id"][(k + len(sname)) % 4]
+            if tier == "quick" and (k + len(sname)) % 2:
+                continue
+            yield case("ckpt-garbled-%s-%d" % (sname, k), body, {"kind": "FAILED", "etype": "CheckpointError", "why": "checkpoint-answer-garbled-" + how},
+                       faults=[{"match": {"op": "checkpoint", "n": k}, "err": {"kind": "garble", "how": how}, "when": "after"}], opts={"hang_s": 3.0}, **extra)
     # a page fetch (GetDurableExecutionState) fails: while loading the paginated history, or while following the pages of a checkpoint response
     for sname, body in shapes.items():
         for err in (ERRS[0], ERRS[5], ERRS[8]):
